@@ -1216,6 +1216,40 @@ fn client_library_boundedness(ctx: &Ctx, agg: &mut Agg) -> Value {
             close_leaked_fds(&pathc);
         }
     }
+    // what a call leaves behind when it gives up: a stand-in daemon that never pauses (a thread of the C program bumping
+    // the generation as fast as it can) makes clockbound_now exhaust its retry budget; once the "daemon" has stopped,
+    // the next calls on the same context must return
+    if let Ok(bin) = crate::gridmc::abi::build_c(ctx, false) {
+        let path = dir.join("gave-up-c");
+        let _ = std::fs::remove_file(&path);
+        let mut w = ShmWriter::new(&path).expect("writer");
+        w.write(&rec0.to_ceb());
+        let mut c = match crate::gridmc::abi::start_c(&bin, "libclockbound.so") {
+            Ok(c) => c,
+            Err(e) => machinery_failure(&e),
+        };
+        let name = "after a call that exhausted its retry budget on an update that never ended";
+        let mut run = || -> Result<(String, String), String> {
+            let o = c.ask(&format!("P 1 {}", path.display()))?;
+            if o != "open ok" {
+                return Ok((o, String::new()));
+            }
+            let wres = c.ask(&format!("W 1 {} 4000 {} {} 5001 0", path.display(), real_ns.div_euclid(S), real_ns.rem_euclid(S)))?;
+            let after = c.ask(&format!("L 1 3 {} {} 5001 0", real_ns.div_euclid(S), real_ns.rem_euclid(S)))?;
+            Ok((wres, after))
+        };
+        match run() {
+            Ok((wres, after)) => results.push(json!({"library": "C library", "situation": name, "provocation": wres, "returned": after})),
+            Err(e) if e.contains("did not return within") => {
+                agg.add("C18:client-library-call-does-not-return".into(), 0, format!("{e}, in the situation: {name}"), json!({"engine": "seqmc", "directed": "client library boundedness", "library": "C library", "situation": name, "calls": []}));
+                results.push(json!({"library": "C library", "situation": name, "returned": "NEVER"}));
+            }
+            Err(e) => machinery_failure(&format!("client-library phase (C), {name}: {e}")),
+        }
+        c.finish();
+        drop(w);
+        close_leaked_fds(&path);
+    }
     json!({"kind": "directed (each situation once per library, virtual clock standing still)", "situations": situations.len(), "consecutive_calls_per_counted_situation": many, "c_library": c_note, "results": results})
 }
 
